@@ -34,7 +34,7 @@ ASSUMPTIONS = ["the length rule (mask character repeated to the value's length) 
                "documents are decoded with the library's codecs (C04)"]
 KINDS = ["s", "h", "n", "b", "by", "sec", "ch", "l"]
 FOREIGN_TARGETS = ["sub.deep", "sub.deep", "t", "sub.t", "sub.deep.t", "plain.t"]
-MASKS = [None, "", "*", "#", "x", "***", "[hidden]", "REDACTED", " "]
+MASKS = [None, "", "*", "#", "x", "***", "[hidden]", "REDACTED", " ", "\u2022", "\u00d7", "\u2588\u2588"]
 
 
 def _scope(rng, depth_ok=True):
